@@ -260,6 +260,17 @@ structure Outcome where
   forest : Forest
   reg : Registry
 
+/-- Go: `Modules.Process` from the augment loop to the second `FixChoice`: the loop, FixChoice
+everywhere, the leftover augments (now with errors; an augment into an implied case only becomes
+applicable at this point), and FixChoice again when one of them was applied. -/
+def augmentPhase (reg : Registry) (order : List Nat) (fuel : Nat) (s : PState) : PState :=
+  let (left, s) := augmentLoop reg fuel order.toArray s
+  let s := { s with forest := { trees := s.forest.trees.map fun (i, e) => (i, fixChoice e) } }
+  let (s, applied) := left.foldl (fun (acc : PState × Nat) id =>
+    let (s, p, _) := augmentTree reg id true acc.1
+    (s, acc.2 + p)) (s, 0)
+  if applied > 0 then { s with forest := { trees := s.forest.trees.map fun (i, e) => (i, fixChoice e) } } else s
+
 /-- Go: `Modules.Process()`. -/
 def processAll (reg : Registry) (opts : Opts) (plug : Plug) : Outcome :=
   -- process(): linking, identities, typedefs
@@ -288,15 +299,7 @@ def processAll (reg : Registry) (opts : Opts) (plug : Plug) : Outcome :=
   let order := sortBy (fun (a b : Mod) =>
       if a.fullName != b.fullName then a.fullName < b.fullName else !a.isSub && b.isSub) keyed
   let total := pending.foldl (fun n p => n + p.2.length) 0
-  let (left, s) := augmentLoop reg (total + 2) (order.map (·.seq)).toArray s
-  -- FixChoice everywhere
-  let s := { s with forest := { trees := s.forest.trees.map fun (i, e) => (i, fixChoice e) } }
-  -- leftover augments become errors
-  let (s, applied) := left.foldl (fun (acc : PState × Nat) id =>
-    let (s, p, _) := augmentTree reg id true acc.1
-    (s, acc.2 + p)) (s, 0)
-  -- an augment into an implied case only becomes applicable now; fix its choices too
-  let s := if applied > 0 then { s with forest := { trees := s.forest.trees.map fun (i, e) => (i, fixChoice e) } } else s
+  let s := augmentPhase reg (order.map (·.seq)) (total + 2) s
   let errs := (s.forest.trees.map fun (_, e) => e.allErrors).flatten
   -- deviations, once per module name, keys in sorted order (modules, then submodules)
   let devOrder : List Mod :=
